@@ -1040,7 +1040,7 @@ class Harness:
         pre = snapshot(self.R)
         had_cache = self.cache in pre
         try:
-            FileBuilder.clean(self.cache, BUILD_NAME)
+            FileBuilder.clean(dsl.spell(self.prog.get('spell'), 'clean%d' % self.step, self.cache), BUILD_NAME)
         except Exception as e:
             return [self._fail('C12.tree', 'clean raised %s' % dsl.exc_class(e), {**info, 'tb': traceback.format_exc()[-1500:]})]
         post = snapshot(self.R)
